@@ -5,10 +5,21 @@
 /* ghost log of what coap_notify_observers hands to its callees */
 int G_track; uint32_t G_track_value; int G_io_timer;
 int G_nsend; int G_send_type[3]; coap_session_t *G_send_session[3]; coap_pdu_t *G_send_pdu[3];
-int G_obs_opt; uint32_t G_obs_val[3]; int G_tok; size_t G_tok_len[3]; const uint8_t *G_tok_s[3]; int G_handler;
+int G_obs_opt; uint32_t G_obs_val[3]; int G_has_obs[3]; int G_send_code[3]; int G_tok; size_t G_tok_len[3]; const uint8_t *G_tok_s[3]; int G_handler;
 int coap_delete_observer_contract(coap_resource_t *resource, coap_session_t *session, const coap_bin_const_t *token)
 __CPROVER_requires(1) __CPROVER_assigns() __CPROVER_ensures(1);
 #include "src/coap_resource.c"
+#if WHICH == 4
+/* coap_check_notify_lkd is verified against this contract of coap_notify_observers: a call notifies one resource and either
+ * asks for another round (observe_pending = 1: some observer could not be served now) or leaves the flag alone */
+int G_notified, G_retry; coap_resource_t *G_notified_r[2];
+static void coap_notify_observers_contract(coap_context_t *context, coap_resource_t *r, coap_deleting_resource_t deleting)
+__CPROVER_requires(__CPROVER_w_ok(context, sizeof(*context)) && __CPROVER_r_ok(r, sizeof(*r)) && deleting == COAP_NOT_DELETING_RESOURCE)
+__CPROVER_assigns(context->observe_pending, G_notified, G_retry, G_notified_r[0], G_notified_r[1])
+__CPROVER_ensures(G_notified == __CPROVER_old(G_notified) + 1)
+__CPROVER_ensures(__CPROVER_old(G_notified) >= 2 || G_notified_r[__CPROVER_old(G_notified)] == r)
+__CPROVER_ensures((context->observe_pending == 1 && G_retry == 1) || (context->observe_pending == __CPROVER_old(context->observe_pending) && G_retry == __CPROVER_old(G_retry)));
+#endif
 #include "src/coap_threadsafe.c"
 #include "src/coap_encode.c"
 #include "stubs/base.h"
@@ -19,22 +30,24 @@ void coap_update_io_timer(coap_context_t *c, coap_tick_t d) { (void)c; (void)d; 
 static void track_cb(coap_context_t *c, coap_str_const_t *n, uint32_t v, void *u) { (void)c; (void)n; (void)u; G_track++; G_track_value = v; }
 int nondet_mid_res(void); _Bool nondet_ok(void); uint8_t nondet_code(void);
 size_t coap_session_max_pdu_size_lkd(const coap_session_t *s) { (void)s; return 1152; }
-coap_pdu_t *coap_pdu_init(coap_pdu_type_t type, coap_pdu_code_t code, coap_mid_t mid, size_t size) { (void)size; coap_pdu_t *p = coap_malloc_type(COAP_PDU, sizeof(coap_pdu_t)); if (p) { p->type = type; p->code = code; p->mid = mid; p->data = NULL; p->used_size = 0; } return p; }
+coap_pdu_t *coap_pdu_init(coap_pdu_type_t type, coap_pdu_code_t code, coap_mid_t mid, size_t size) { (void)size; coap_pdu_t *p = coap_malloc_type(COAP_PDU, sizeof(coap_pdu_t)); if (p) { p->type = type; p->code = code; p->mid = mid; p->data = NULL; p->used_size = 0; p->max_opt = 0; } return p; }
 void coap_delete_pdu(coap_pdu_t *p) { coap_free_type(COAP_PDU, p); }
-int coap_add_token(coap_pdu_t *pdu, size_t len, const uint8_t *data) { (void)pdu; if (G_tok < 3) { G_tok_len[G_tok] = len; G_tok_s[G_tok] = data; } G_tok++; return nondet_ok(); }
+/* the stubs of the PDU builders record token and Observe value IN the response PDU (fields of the stub PDU used as ghost
+ * storage), the send stub logs them: so the log is per notification actually sent */
+int coap_add_token(coap_pdu_t *pdu, size_t len, const uint8_t *data) { pdu->actual_token.length = len; pdu->actual_token.s = data; G_tok++; return nondet_ok(); }
 uint16_t coap_new_message_id_lkd(coap_session_t *s) { (void)s; return (uint16_t)nondet_mid_res(); }
 size_t coap_add_option_internal(coap_pdu_t *pdu, coap_option_num_t number, size_t len, const uint8_t *data) {
-  (void)pdu; if (number == COAP_OPTION_OBSERVE) { uint32_t v = 0; for (size_t i = 0; i < 4; i++) if (i < len) v = (v << 8) | data[i]; if (G_obs_opt < 3) G_obs_val[G_obs_opt] = v; G_obs_opt++; } return len + 1; }
+  (void)pdu; if (number == COAP_OPTION_OBSERVE) { uint32_t v = 0; for (size_t i = 0; i < 4; i++) if (i < len) v = (v << 8) | data[i]; pdu->used_size = v; pdu->max_opt = 1; G_obs_opt++; } return len + 1; }
 int coap_get_block_b(const coap_session_t *s, const coap_pdu_t *p, coap_option_num_t n, coap_block_b_t *b) { (void)s; (void)p; (void)n; (void)b; return 0; }
 coap_string_t *coap_get_query(const coap_pdu_t *p) { (void)p; return NULL; }
 void coap_show_pdu(coap_log_t l, const coap_pdu_t *p) { (void)l; (void)p; }
 int coap_check_code_class(coap_session_t *s, coap_pdu_t *p) { (void)s; (void)p; return 1; }
 void coap_check_code_lg_xmit(const coap_session_t *s, const coap_pdu_t *q, coap_pdu_t *r, const coap_resource_t *res, const coap_string_t *qy) { (void)s; (void)q; (void)r; (void)res; (void)qy; }
 void coap_delete_string(coap_string_t *s) { (void)s; }
-int coap_remove_option(coap_pdu_t *p, coap_option_num_t n) { (void)p; (void)n; return 1; }
-coap_mid_t coap_send_internal(coap_session_t *s, coap_pdu_t *p) { if (G_nsend < 3) { G_send_type[G_nsend] = p->type; G_send_session[G_nsend] = s; G_send_pdu[G_nsend] = p; } G_nsend++; return nondet_mid_res(); }
+int coap_remove_option(coap_pdu_t *p, coap_option_num_t n) { if (n == COAP_OPTION_OBSERVE) p->max_opt = 0; return 1; }
+coap_mid_t coap_send_internal(coap_session_t *s, coap_pdu_t *p) { if (G_nsend < 3) { G_send_type[G_nsend] = p->type; G_send_session[G_nsend] = s; G_send_pdu[G_nsend] = p; G_tok_len[G_nsend] = p->actual_token.length; G_tok_s[G_nsend] = p->actual_token.s; G_obs_val[G_nsend] = (uint32_t)p->used_size; G_has_obs[G_nsend] = p->max_opt; G_send_code[G_nsend] = p->code; } G_nsend++; return nondet_mid_res(); }
 coap_mid_t coap_send_q_block2(coap_session_t *s, coap_resource_t *r, const coap_string_t *q, coap_pdu_code_t c, coap_block_b_t b, coap_pdu_t *p, coap_send_pdu_t t) { (void)s; (void)r; (void)q; (void)c; (void)b; (void)p; (void)t; return COAP_INVALID_MID; }
-static void get_handler(coap_resource_t *r, coap_session_t *s, const coap_pdu_t *q, const coap_string_t *qy, coap_pdu_t *resp) { (void)r; (void)s; (void)q; (void)qy; G_handler++; resp->code = COAP_RESPONSE_CODE(205); }
+static void get_handler(coap_resource_t *r, coap_session_t *s, const coap_pdu_t *q, const coap_string_t *qy, coap_pdu_t *resp) { (void)r; (void)s; (void)q; (void)qy; G_handler++; resp->code = nondet_code(); }
 #endif
 /* RFC 7641 3.4: V2 is newer than V1 (24-bit serial numbers) */
 #define SERIAL24_GT(v2, v1) (((v1) < (v2) && (v2) - (v1) < (1u << 23)) || ((v1) > (v2) && (v1) - (v2) > (1u << 23)))
@@ -43,21 +56,34 @@ void harness(void) {
   IN_SCALAR(uint32_t, v); ASSUME(v <= 0xFFFFFF);
   CHECK(SERIAL24_GT(((v + 1) & 0xFFFFFF), v), "RFC 7641 3.4: (v+1) mod 2^24 is strictly newer than v for every 24-bit v");
   MUSTFAIL(v != 0xFFFFFF, "wrap_reachable");
+#elif WHICH == 4
+  /* coap_check_notify_lkd over a resource table of 0..2 entries (uthash iteration order = hh.next chain) */
+  static coap_context_t ctx_o; static coap_resource_t res_o[2]; coap_context_t *ctx = &ctx_o;
+  IN_SCALAR(uint8_t, nres); IN_SCALAR(_Bool, pending); ASSUME(nres <= 2);
+  for (int i = 0; i < 2; i++) { res_o[i].hh.next = (i + 1 < nres) ? &res_o[i + 1] : NULL; res_o[i].context = ctx; }
+  ctx->resources = nres ? &res_o[0] : NULL; ctx->observe_pending = pending;
+  G_notified = 0; G_retry = 0; G_notified_r[0] = G_notified_r[1] = NULL;
+  coap_check_notify_lkd(ctx);
+  CHECK(G_notified == (pending ? nres : 0), "with a change pending every resource is given to coap_notify_observers exactly once, otherwise none");
+  CHECK(!pending || nres < 1 || G_notified_r[0] == &res_o[0], "first resource notified"); CHECK(!pending || nres < 2 || G_notified_r[1] == &res_o[1], "second resource notified");
+  CHECK(!G_retry || ctx->observe_pending == 1, "a notification round that could not serve every observer stays pending (the latest state is notified by a later round)");
+  CHECK(G_retry || ctx->observe_pending == 0 || !pending, "a completed round clears the pending flag");
+  MUSTFAIL(!(G_retry && G_notified == 2), "retry_reachable"); MUSTFAIL(!(pending && !G_retry && nres == 2), "completed_reachable");
 #else
-  coap_context_t *ctx = malloc(sizeof(*ctx)); coap_resource_t *r = malloc(sizeof(*r)); ASSUME(ctx && r);
+  static coap_context_t ctx_o; static coap_resource_t r_o; coap_context_t *ctx = &ctx_o; coap_resource_t *r = &r_o;   /* static objects: see ws_frame.c */
   IN_SCALAR(uint32_t, observe); IN_SCALAR(_Bool, observable); IN_SCALAR(_Bool, has_sub); IN_SCALAR(uint32_t, freq); IN_SCALAR(_Bool, has_track);
 #ifdef FREQ
   ASSUME(freq == FREQ);   /* the save frequency is enumerated by the unit's variants (a constant divisor keeps '%' decidable) */
 #endif
   ASSUME(observe <= 0xFFFFFF && freq >= 1 && freq <= 1000);
-  coap_subscription_t sub[2]; coap_pdu_t opdu[2];
-  coap_session_t *sess = malloc(2 * sizeof(coap_session_t)); ASSUME(sess != NULL);
+  static coap_subscription_t sub0, sub1; static coap_pdu_t opdu0, opdu1; coap_subscription_t *const sub[2] = { &sub0, &sub1 }; coap_pdu_t *const opdu[2] = { &opdu0, &opdu1 };   /* separate objects, not arrays of structs: a pointer into an array of large structs is a symbolic offset for cbmc */
+  static coap_session_t sess0, sess1; coap_session_t *const sess[2] = { &sess0, &sess1 };
   r->context = ctx; r->observable = observable; r->observe = observe; r->dirty = 0; r->partiallydirty = 0; r->flags = 0;
   ctx->observe_save_freq = freq; ctx->observe_pending = 0; ctx->observe_user_data = NULL;
   G_track = 0; G_io_timer = 0; G_nsend = 0; G_obs_opt = 0; G_tok = 0; G_handler = 0; G_mutex_ops = 0;
 #if WHICH == 1
   ctx->track_observe_value = has_track ? track_cb : NULL; coap_track_observe_value_t keep = track_cb; (void)keep;
-  r->subscribers = has_sub ? &sub[0] : NULL;
+  r->subscribers = has_sub ? sub[0] : NULL;
   int ret = coap_resource_notify_observers_lkd(r, NULL);
   int active = observable && has_sub;
   CHECK(ret == active, "a change is accepted exactly when the resource is observable and has a subscriber");
@@ -74,22 +100,23 @@ void harness(void) {
   ASSUME((rflags & ~(COAP_RESOURCE_FLAGS_NOTIFY_CON | COAP_RESOURCE_FLAGS_NOTIFY_NON_ALWAYS | COAP_RESOURCE_FLAGS_NOTIFY_NON)) == 0);
   G_me = (pthread_t)me; coap_started = 1; global_lock.pid = G_me; global_lock.in_callback = 0; global_lock.lock_count = 0; G_held = 1;
   const uint8_t nc[2] = { nc0, nc1 }, ca[2] = { ca0, ca1 };
-  for (int i = 0; i < 2; i++) { sub[i].next = (i + 1 < nsub) ? &sub[i + 1] : NULL; sub[i].session = &sess[i]; sub[i].non_cnt = nc[i]; sub[i].fail_cnt = 0; sub[i].dirty = 0; sub[i].pdu = &opdu[i];
-    sess[i].con_active = ca[i]; sess[i].nstart = 1; sess[i].proto = COAP_PROTO_UDP; sess[i].lg_xmit = NULL; sess[i].context = ctx;
-    opdu[i].code = COAP_REQUEST_CODE_GET; opdu[i].actual_token.length = 2 + i; opdu[i].actual_token.s = (const uint8_t *)&opdu[i]; }
+  for (int i = 0; i < 2; i++) { sub[i]->next = (i + 1 < nsub) ? sub[i + 1 < 2 ? i + 1 : 1] : NULL; sub[i]->session = sess[i]; sub[i]->non_cnt = nc[i]; sub[i]->fail_cnt = 0; sub[i]->dirty = 0; sub[i]->pdu = opdu[i];
+    sess[i]->con_active = ca[i]; sess[i]->nstart = 1; sess[i]->proto = COAP_PROTO_UDP; sess[i]->lg_xmit = NULL; sess[i]->context = ctx;
+    opdu[i]->code = COAP_REQUEST_CODE_GET; opdu[i]->actual_token.length = 2 + i; opdu[i]->actual_token.s = (const uint8_t *)opdu[i]; }
   ASSUME(ca0 <= 1 && ca1 <= 1);
-  r->observable = 1; r->dirty = 1; r->subscribers = &sub[0]; r->flags = rflags; r->handler[COAP_REQUEST_CODE_GET - 1] = get_handler; coap_method_handler_t keep = get_handler; (void)keep;
+  static coap_str_const_t upath; upath.s = (const uint8_t *)"a"; upath.length = 1; r->uri_path = &upath;   /* read by a debug log argument */
+  r->observable = 1; r->dirty = 1; r->subscribers = sub[0]; r->flags = rflags; r->handler[COAP_REQUEST_CODE_GET - 1] = get_handler; coap_method_handler_t keep = get_handler; (void)keep;
   coap_notify_observers(ctx, r, COAP_NOT_DELETING_RESOURCE);
   CHECK(G_nsend <= nsub, "at most one notification per subscriber and change");
   CHECK(G_obs_opt >= G_nsend, "every notification carries an Observe option");
   for (int k = 0; k < 2; k++) if (k < G_nsend) {
-    int i = G_send_session[k] == &sess[0] ? 0 : 1;
-    CHECK(G_obs_val[k] == observe, "the Observe option of a notification is the resource's current sequence number");
-    CHECK(G_tok_len[k] == opdu[i].actual_token.length && G_tok_s[k] == opdu[i].actual_token.s, "a notification carries the token of that observer's registration");
+    int i = G_send_session[k] == sess[0] ? 0 : 1;
+    CHECK(COAP_RESPONSE_CLASS(G_send_code[k]) != 2 ? !G_has_obs[k] : (G_has_obs[k] && G_obs_val[k] == observe), "a 2.xx notification carries an Observe option whose value is the resource's current sequence number; any other response carries none");
+    CHECK(G_tok_len[k] == opdu[i]->actual_token.length && G_tok_s[k] == opdu[i]->actual_token.s, "a notification carries the token of that observer's registration");
     /* at least every (COAP_OBS_MAX_NON+1)-th notification is Confirmable: NON only while fewer than MAX_NON in a row */
     CHECK(G_send_type[k] == COAP_MESSAGE_CON || (rflags & COAP_RESOURCE_FLAGS_NOTIFY_NON_ALWAYS) || nc[i] < COAP_OBS_MAX_NON, "a notification is Non-confirmable only while fewer than COAP_OBS_MAX_NON went out in a row (so at least every sixth is Confirmable)");
-    CHECK(G_send_type[k] == COAP_MESSAGE_CON ? sub[i].non_cnt == 0 : ((rflags & COAP_RESOURCE_FLAGS_NOTIFY_NON_ALWAYS) ? sub[i].non_cnt == 0 : sub[i].non_cnt == nc[i] + 1), "the run-length counter is reset by a Confirmable and incremented by a Non-confirmable notification");
-    CHECK(sub[i].non_cnt <= COAP_OBS_MAX_NON, "the run-length counter never exceeds COAP_OBS_MAX_NON");
+    CHECK(COAP_RESPONSE_CLASS(G_send_code[k]) > 2 || (G_send_type[k] == COAP_MESSAGE_CON ? sub[i]->non_cnt == 0 : ((rflags & COAP_RESOURCE_FLAGS_NOTIFY_NON_ALWAYS) ? sub[i]->non_cnt == 0 : sub[i]->non_cnt == nc[i] + 1)), "the run-length counter is reset by a Confirmable and incremented by a Non-confirmable notification");
+    CHECK(sub[i]->non_cnt <= COAP_OBS_MAX_NON, "the run-length counter never exceeds COAP_OBS_MAX_NON");
   }
   CHECK(G_held == 1 && global_lock.pid == G_me, "the lock is held again when coap_notify_observers returns");
   MUSTFAIL(!(G_nsend == 2), "two_notifications_reachable"); MUSTFAIL(!(G_nsend >= 1 && G_send_type[0] == COAP_MESSAGE_NON), "non_reachable"); MUSTFAIL(!(G_nsend >= 1 && G_send_type[0] == COAP_MESSAGE_CON && nc0 == COAP_OBS_MAX_NON), "forced_con_reachable");
